@@ -646,3 +646,45 @@ def run_a13(chk, A13, repo):
             chk.violation(A13, am.rel, f.qualname, f'{target} = {got2} although {explicit} is given',
                           f'an explicit {explicit} is overridden', line=f.node.lineno,
                           witness=f'$MODEL with {explicit} on a compartment other than {named}')
+
+
+def run_a14(chk, A14, repo):
+    """Rn / Dn (modelled rate / duration of compartment n) are named with the integer compartment number: the number may come
+    from the CMT data column, which is read as float"""
+    am = repo.module('pharmpy.model.external.nonmem.advan')
+    n = 0
+    for f in am.functions.values():
+        sites = [j for j in ast.walk(f.node) if isinstance(j, ast.JoinedStr) and len(j.values) == 2
+                 and isinstance(j.values[0], ast.Constant) and j.values[0].value in ('R', 'D')
+                 and isinstance(j.values[1], ast.FormattedValue)]
+        if not sites:
+            continue
+        cfg = CFG(f.node)
+        from sa import reach as _reach
+        for j in sites:
+            v = j.values[1].value
+            n += 1
+
+            def is_int(e):
+                return isinstance(e, ast.Call) and dotted(e.func) == 'int'
+            ok = is_int(v) or j.values[1].format_spec is not None and 'd' in unparse(j.values[1].format_spec)
+            if not ok and isinstance(v, ast.Name):
+                at = _reach.node_containing(cfg, j)
+                found, entry = _reach.reaching(cfg, at, v.id) if at is not None else (set(), True)
+                vs = _reach.values(cfg, at, v.id) if at is not None else None
+                # every definition that reaches the use is an int(..) conversion (the parameter itself must not reach it), or
+                # the name is bound by range() / enumerate()
+                ok = bool(vs) and not entry and all(is_int(val) for _d, val in vs)
+                if not ok:
+                    ok = any(isinstance(L, ast.For) and v.id in {x.id for x in ast.walk(L.target) if isinstance(x, ast.Name)}
+                             and isinstance(L.iter, ast.Call) and dotted(L.iter.func) in ('range', 'enumerate')
+                             for L in ast.walk(f.node))
+            chk.instance(A14, f'{f.name}: `{unparse(j)}` is formatted from an integer: {ok}')
+            if not ok:
+                chk.violation(A14, am.rel, f.name, unparse(j),
+                              'the compartment number is data derived (the CMT column is read as float): the symbol becomes '
+                              'R2.0 / D2.0, which no $PK statement defines', line=j.lineno,
+                              witness='a dose record with CMT=2 RATE=-2 and D2 defined in $PK: the infusion duration of the read '
+                                      'model is the undefined symbol D2.0 (findings/C01_cmt_modelled_duration_demo.py)')
+    if n == 0:
+        raise AnalysisError('A14: no R<n> / D<n> symbol construction found in advan.py')
